@@ -260,11 +260,12 @@ theorem rollbackTick_offersD (s s' : P2P) (gh : DGhost) (t0 : TLState) (reqs req
   obtain ⟨sy3, hset, hadv⟩ := bind_ok hadv
   obtain ⟨s4, hreg, hgate⟩ := bind_ok hadv
   obtain ⟨gh1, hsettled, _⟩ := handleRollbackAndSaveD s s1 confirmed t0 reqs reqs1 gh st0 h.tinv h.marks
-    h.nonsparse h.asked h.pend
+    h.asked h.pend
     (fun p hp hg => by
       have := h.safe p hp hg
-      rw [h.marks.last] at this
-      exact ⟨this.1, this.2.1⟩) hrs
+      have hsv := fun hsp => h.saved hsp p hp hg
+      rw [h.marks.last] at this hsv
+      exact ⟨this.1, this.2.1, hsv⟩) hrs
   have hinv1 := SessInvD_of_settledD s s1 gh gh1 t0 reqs reqs1 st0 h hsettled
   have hn1 := P2P.handleRollbackAndSave_nsf _ _ _ _ _ hrs
   have hnlen : s.localConnectStatus.length = s.sync.queues.length := by rw [h.marks.len]; exact h.tinv.sync.nq
